@@ -192,7 +192,8 @@ def plan_C19(tier, seed):
     jobs = []
     for src, lib in (("hC19.c", "containers"), ("hC19x.cpp", "cxxcontainers")):
         for e0 in range(b["hash_elements"]):
-            jobs.append({"harness": src, "defs": D, "lib": lib, "params": {"mode": 0, "steps": b["hash_steps"], "elements": b["hash_elements"], "hmax": b["hmax"], "size": 0, "el0": e0}, "weight": 1000})
+            for o0 in range(4):
+                jobs.append({"harness": src, "defs": D, "lib": lib, "params": {"mode": 0, "steps": b["hash_steps"], "elements": b["hash_elements"], "hmax": b["hmax"], "size": 0, "el0": e0, "op0": o0}, "weight": 3000 if o0 == 0 else 1000})
         for op0 in range(7):
             jobs.append({"harness": src, "defs": D, "lib": lib, "params": {"mode": 1, "steps": b["os_steps"], "op0": op0}, "weight": 800})
             jobs.append({"harness": src, "defs": D, "lib": lib, "params": {"mode": 2, "steps": b["vlo_steps"], "op0": op0}, "weight": 800})
